@@ -17,12 +17,13 @@ STUB_DIR = os.path.join(VERIF, '.cache', 'stubs')
 
 
 class PixelLogits(nn.Module):
-    def __init__(self, n_classes: int, pool: int, bias_blank: float, ctx: int):
+    def __init__(self, n_classes: int, pool: int, bias_blank: float, ctx: int, offset: float = 0.0):
         super().__init__()
         self.n_classes = n_classes
         self.pool = pool
         self.bias_blank = bias_blank
         self.ctx = ctx      # half-width (in frames) of an additional horizontal smoothing; 0 = strictly local
+        self.offset = offset  # added to every class, so that no logit is exactly 0
 
     def forward(self, x):
         # x: [N, 3, H, W] in 0..1
@@ -32,21 +33,21 @@ class PixelLogits(nn.Module):
         if self.ctx > 0:
             k = 2 * self.ctx + 1
             y = torch.nn.functional.avg_pool1d(y, k, stride=1, padding=self.ctx, count_include_pad=True) * float(k)
-        bias = torch.zeros(self.n_classes, dtype=y.dtype)
-        bias[self.n_classes - 1] = self.bias_blank
+        bias = torch.zeros(self.n_classes, dtype=y.dtype) + self.offset
+        bias[self.n_classes - 1] = self.bias_blank + self.offset
         return y + bias[None, :, None]
 
 
-def stub_path(n_classes, pool, bias_blank, ctx):
-    return os.path.join(STUB_DIR, f'pixlogits_c{n_classes}_p{pool}_b{bias_blank}_x{ctx}.pt')
+def stub_path(n_classes, pool, bias_blank, ctx, offset=0.0):
+    return os.path.join(STUB_DIR, f'pixlogits_c{n_classes}_p{pool}_b{bias_blank}_x{ctx}_o{offset}.pt')
 
 
-def ensure_pixel_stub(n_classes, pool=1, bias_blank=0.0, ctx=0):
+def ensure_pixel_stub(n_classes, pool=1, bias_blank=0.0, ctx=0, offset=0.0):
     """writes <path>.cpu (the engine appends '.cpu' on CPU devices); returns the path WITHOUT the suffix"""
     os.makedirs(STUB_DIR, exist_ok=True)
-    p = stub_path(n_classes, pool, bias_blank, ctx)
+    p = stub_path(n_classes, pool, bias_blank, ctx, offset)
     if not os.path.exists(p + '.cpu'):
-        m = torch.jit.script(PixelLogits(n_classes, pool, float(bias_blank), ctx))
+        m = torch.jit.script(PixelLogits(n_classes, pool, float(bias_blank), ctx, float(offset)))
         tmp = p + f'.cpu.{os.getpid()}.tmp'
         m.save(tmp)
         os.replace(tmp, p + '.cpu')
@@ -66,11 +67,15 @@ def engine_json(name, checkpoint, characters, line_px_height, extra=None):
     return p
 
 
-def make_ctc_engine(n_classes, characters, line_px_height=8, pool=1, bias_blank=0.0, ctx=0, batch_size=8):
+def ctc_engine_json(n_classes, characters, line_px_height=8, pool=1, bias_blank=0.0, ctx=0, offset=0.0):
+    ck = ensure_pixel_stub(n_classes, pool, bias_blank, ctx, offset)
+    return engine_json(f'engine_c{n_classes}_p{pool}_b{bias_blank}_x{ctx}_o{offset}_h{line_px_height}', ck, characters, line_px_height)
+
+
+def make_ctc_engine(n_classes, characters, line_px_height=8, pool=1, bias_blank=0.0, ctx=0, batch_size=8, offset=0.0):
     """A REAL PytorchEngineLineOCR (real constructor, real TorchScript loading) around the pixel stub."""
     from pero_ocr.ocr_engine.pytorch_ocr_engine import PytorchEngineLineOCR
-    ck = ensure_pixel_stub(n_classes, pool, bias_blank, ctx)
-    js = engine_json(f'engine_c{n_classes}_p{pool}_b{bias_blank}_x{ctx}_h{line_px_height}', ck, characters, line_px_height)
+    js = ctc_engine_json(n_classes, characters, line_px_height, pool, bias_blank, ctx, offset)
     return PytorchEngineLineOCR(js, torch.device('cpu'), batch_size=batch_size)
 
 
